@@ -1,3 +1,392 @@
+/-
+  C08 model driver.  Four kinds of histories (first token after `new`):
+
+    new pit cap=K dnl=MS strat=best|multi nh=f:c,f:c|-     one real fw.Thread (virtual clock)
+      I <face> <name> <cbp> <mbf> <nonce> <life-ms|->
+      D <face> <name> <fresh-ms|-> <tok: -|T<k>|X> <wirehex>
+      adv <ms> | quiesce <ms> | cap <K>                      every output is a white-box dump
+    new fibtree | new fibhash <m>
+      fins <name> <face> <cost> | frem <name> <face> | fclr <name> | fset <name> | funs <name>
+    new rib tree|hash <m>
+      radd <name> <face> <origin> <cost> <flags> | rrem <name> <face> <origin> | rface <face>
+
+  DIFF: the dump predicted by the model vs the dump of the real code.
+  SPEC: the C08 predicates of Spec.lean evaluated on the real code's dump.
+-/
 import NdnVerif.Driver.Common
--- stub: replaced by the C08 model driver
-def main : IO Unit := IO.println "DONE lines=0 histories=0 diffs=0 specs=0 skipped=0"
+import NdnVerif.C08.Spec
+import NdnVerif.C07.Spec
+open Ndn Ndn.Driver Ndn.C08
+
+def msNs (ms : Nat) : Nat := ms * 1000000
+def sortStrs (l : List String) : List String := l.mergeSort (fun a b => decide (a ≤ b))
+def joinOr (sep : String) (l : List String) : String := if l.isEmpty then "-" else sep.intercalate l
+def namesSorted (l : List Name) : String := joinOr "," (sortStrs (l.map Name.toText))
+
+def sendText : Send → String
+  | .interest f n => s!"I>{f}:{n.toText}"
+  | .data f n => s!"D>{f}:{n.toText}"
+
+def insertBy {α : Type} (key : α → Nat) (x : α) : List α → List α
+  | [] => [x]
+  | y :: t => if key x < key y then x :: y :: t else y :: insertBy key x t
+def sortBy {α : Type} (key : α → Nat) (l : List α) : List α := l.foldr (insertBy key) []
+
+def optNat : Option Nat → String
+  | some n => toString n
+  | none => "-"
+
+def entryText (e : PitEntry) : String :=
+  let ins := joinOr "+" ((sortBy (·.face) e.ins).map fun r => s!"{r.face}~{r.nonce}~{r.exp}")
+  let outs := joinOr "+" ((sortBy (·.face) e.outs).map fun r => s!"{r.face}~{r.nonce}~{r.ts}~{r.exp}")
+  let b := fun (x : Bool) => if x then "1" else "0"
+  s!"T{e.tok}|{e.name.toText}|{b e.cbp}{b e.mbf}|{ins}|{outs}|{optNat e.sched}|{b e.satisfied}"
+
+def renderDump (s : St) (sent : List Send) : String :=
+  let pit := joinOr ";" ((sortBy (·.tok) s.pit).map entryText)
+  let dnl := joinOr "," (sortStrs (s.dnl.map fun d => s!"{d.name.toText}#{d.nonce}"))
+  s!"t={s.now} sent={joinOr "," (sortStrs (sent.map sendText))} npit={s.nPit} ncs={s.cs.nCs} tokmap={s.pit.length} " ++
+  s!"q={(s.pit.filter (fun e => e.sched.isSome)).length} pit={pit} nodes={namesSorted s.cs.nodes} " ++
+  s!"cs={namesSorted s.cs.cs.keys} lru={joinOr "," (s.cs.queue.map Name.toText)} loc={s.cs.queue.length} " ++
+  s!"dnl={dnl} dnlq={s.dnl.length}"
+
+/-! parsing of the implementation's dump (for the specification side only) -/
+
+def kvs (line : String) : List (String × String) :=
+  (line.splitOn " ").filterMap fun t =>
+    match t.splitOn "=" with
+    | k :: rest@(_ :: _) => some (k, "=".intercalate rest)
+    | _ => none
+
+def kv (m : List (String × String)) (k : String) : String := ((m.find? (·.1 == k)).map (·.2)).getD ""
+def kvNat (m : List (String × String)) (k : String) : Nat := (kv m k).toNat?.getD 0
+
+def listOf (sep : String) (s : String) : List String := if s == "-" || s == "" then [] else s.splitOn sep
+
+def parseNames (s : String) : List Name := (listOf "," s).filterMap Name.ofText
+
+def parseRec (out : Bool) (s : String) : Option Rec :=
+  match s.splitOn "~", out with
+  | [f, n, e], false => some ⟨f.toNat?.getD 0, n.toNat?.getD 0, 0, e.toNat?.getD 0, []⟩
+  | [f, n, t, e], true => some ⟨f.toNat?.getD 0, n.toNat?.getD 0, t.toNat?.getD 0, e.toNat?.getD 0, []⟩
+  | _, _ => none
+
+def parseEntry (s : String) : Option PitEntry :=
+  match s.splitOn "|" with
+  | [t, n, fl, ins, outs, q, sat] => do
+    let name ← Name.ofText n
+    pure { tok := (t.drop 1).toString.toNat?.getD 0, name := name, cbp := fl.startsWith "1", mbf := fl.endsWith "1",
+           ins := (listOf "+" ins).filterMap (parseRec false), outs := (listOf "+" outs).filterMap (parseRec true),
+           sched := q.toNat?, satisfied := sat == "1" }
+  | _ => none
+
+def parseDump (got : String) : Option Dump :=
+  if !got.startsWith "t=" then none else
+  let m := kvs got
+  some { now := kvNat m "t", nPit := kvNat m "npit", nCs := kvNat m "ncs", tokMap := kvNat m "tokmap",
+         qLen := kvNat m "q", pit := (listOf ";" (kv m "pit")).filterMap parseEntry, nodes := parseNames (kv m "nodes"),
+         cs := parseNames (kv m "cs"), lru := parseNames (kv m "lru"), loc := kvNat m "loc",
+         dnl := (listOf "," (kv m "dnl")).length, dnlq := kvNat m "dnlq" }
+
+/-! driver state -/
+
+inductive Mode where | none | pit | fibtree | fibhash | rib
+deriving DecidableEq
+
+structure DSt where
+  mode : Mode := .none
+  m : St := {}
+  ft : FibTree := {}
+  fh : FibHash := { m := 1 }
+  rb : Rib := {}
+  -- specification side (ops + implementation outputs only)
+  horizon : Nat := 0        -- latest instant at which a lifetime recorded so far ends
+  hz : List (Nat × Nat) := []   -- per entry (token index): latest end of lifetime of an Interest recorded in it
+  dnlLife : Nat := 0
+  now : Nat := 0
+  interesting : Bool := false
+  nodiff : Bool := false    -- `new pit … nodiff`: evaluate the specification only (hand-written replays of known defects)
+
+def bad (s : DSt) : StepResult DSt := { st := s, expected := some "bad-op" }
+
+def parseNh (s : String) : List (Nat × Nat) :=
+  (listOf "," s).filterMap fun t => match t.splitOn ":" with
+    | [f, c] => do pure (← f.toNat?, ← c.toNat?)
+    | _ => none
+
+def fail (c k m : String) : SpecFail := ⟨c, k, m⟩
+
+/-- C08 predicates on one dump of the implementation -/
+def hzOf (hz : List (Nat × Nat)) (tok : Nat) : Nat := ((hz.find? (·.1 == tok)).map (·.2)).getD 0
+
+def specDump (hz : List (Nat × Nat)) (d : Dump) (quiescent : Bool) : List SpecFail :=
+  (if allScheduled d then [] else
+    let e := (d.pit.filter (fun e => e.sched.isNone)).head?
+    [fail "pit-unscheduled" "no-queue-item" s!"PIT entry {(e.map (·.name.toText)).getD "?"} has no item in the expiry queue at t={d.now}: it will never be reaped"]) ++
+  (if schedBounded (hzOf hz) d then [] else [fail "pit-sched-bound" "late" s!"a PIT entry is scheduled later than its latest recorded lifetime at t={d.now}"]) ++
+  (if notOverdue d then [] else [fail "pit-overdue" "overdue" s!"a PIT entry is still present more than one update period after its scheduled expiry at t={d.now}"]) ++
+  (if sizesTrue d then [] else
+    let key := if d.nPit != d.pit.length then "npit" else if d.nCs != d.cs.length then "ncs"
+               else if d.tokMap != d.pit.length then "tokmap" else if d.loc != d.cs.length then "lru-locations"
+               else if d.lru.length != d.cs.length then "lru-queue" else "queue"
+    if key == "lru-locations" && !quiescent then [] else
+    [fail "sizes-true" key s!"reported/bookkept sizes differ from the true ones at t={d.now}: npit={d.nPit}/{d.pit.length} ncs={d.nCs}/{d.cs.length} tokmap={d.tokMap} queue={d.qLen} lru={d.lru.length} locations={d.loc}"]) ++
+  (if !quiescent then [] else
+    (if quiescentPit d then [] else [fail "quiescent-pit" (if allScheduled d then "scheduled" else "unscheduled") s!"all lifetimes have elapsed at t={d.now} but the PIT still holds {d.pit.length} entries (npit={d.nPit}, tokmap={d.tokMap}, queue={d.qLen})"]) ++
+    (if quiescentDnl d then [] else [fail "quiescent-dnl" "records" s!"dead-nonce records survive their lifetime at t={d.now}: list={d.dnl} queue={d.dnlq}"]) ++
+    (if treeMinimal d then [] else
+      let dead := d.nodes.filter (fun n => !(C07.memb n (closure (d.cs ++ d.pit.map (·.name)))))
+      [fail "quiescent-tree" (if dead.isEmpty then "missing-node" else "dead-branch") s!"the name tree holds nodes on no path to a live entry at t={d.now}: {namesSorted dead}"]))
+
+def pitStep (_s : DSt) (r : St × List Send) (got : String) (quiescent : Bool) (cov : List String) (s' : DSt) : StepResult DSt :=
+  let crash : List SpecFail := if isCrash got then [fail "no-panic" "thread" s!"the forwarding thread crashed: {got}"] else []
+  let spec := match parseDump got with
+    | some d => specDump s'.hz d quiescent
+    | none => []
+  { st := { s' with m := r.1 }, expected := if s'.nodiff then none else some (renderDump r.1 r.2), spec := crash ++ spec, cov := cov,
+    nontrivial := s'.interesting }
+
+/-- child order that reproduces the implementation's choice of prefix match (taken from its `sent`) -/
+def ordFor (got : String) : List Name → List Name :=
+  let sent := kv (kvs got) "sent"
+  let target : Option Name :=
+    if sent.startsWith "D>" then
+      match sent.splitOn ":" with
+      | _ :: rest => Name.ofText (":".intercalate rest)
+      | _ => none
+    else none
+  match target with
+  | some t => fun l => l.filter (fun q => C07.isPrefix q t) ++ l.filter (fun q => !C07.isPrefix q t)
+  | none => id
+
+/-! rendering of the route-structure dumps -/
+
+def fibTreeText (f : FibTree) : String :=
+  let line := fun (n : Name) => s!"{n.toText}|{(aget [] f.nh n).length}|{if aget false f.st n then 1 else 0}"
+  s!"nodes={joinOr "," (sortStrs (([] :: f.nodes).map line))} pfx={f.pfx.length}"
+
+def fibHashText (f : FibHash) : String :=
+  let real := sortStrs (f.real.map fun p => s!"{p.1.toText}|{p.2.1.length}|{if p.2.2 then 1 else 0}")
+  let keys := (f.virt.map (·.1)) ++ ((f.vnames.map (·.1)).filter (fun k => !(f.virt.any (fun p => decide (p.1 = k)))))
+  let virt := sortStrs (keys.map fun k =>
+    let md := if f.virt.any (fun p => decide (p.1 = k)) then toString (aget 0 f.virt k) else "-"
+    let names := if f.vnames.any (fun p => decide (p.1 = k)) then "+".intercalate (sortStrs ((aget [] f.vnames k).map Name.toText)) else "!"
+    s!"{k.toText}|{md}|{names}")
+  s!"m={f.m} real={joinOr "," real} virt={joinOr "," virt}"
+
+def ribText (r : Rib) : String :=
+  s!"rib={joinOr "," (sortStrs (([] :: r.nodes).map fun n => s!"{n.toText}|{(aget [] r.routes n).length}"))}"
+
+/-- parse "a|b|c,a|b|c" -/
+def parseTriples (s : String) : List (String × String × String) :=
+  (listOf "," s).filterMap fun t => match t.splitOn "|" with
+    | [a, b, c] => some (a, b, c)
+    | _ => none
+
+def specFibTree (got : String) : List SpecFail :=
+  let m := kvs got
+  let ts := parseTriples (kv m "nodes")
+  let nodes := ts.filterMap fun (a, _, _) => Name.ofText a
+  let live := ts.filterMap fun (a, b, c) => if b != "0" || c == "1" then Name.ofText a else none
+  let withNh := (ts.filter fun (_, b, _) => b != "0").length
+  if ts.isEmpty then [] else
+  if fibTreeMinimal (nodes.filter (· ≠ [])) live (kvNat m "pfx") withNh then [] else
+    let dead := nodes.filter (fun n => n ≠ [] && !(C07.memb n (closure live)))
+    [fail "fib-tree-minimal" (if !dead.isEmpty then "dead-node" else if kvNat m "pfx" != withNh then "fibPrefixes" else "missing-node")
+      s!"the name-tree FIB holds more than its live entries require: dead nodes {namesSorted dead}, fibPrefixes={kvNat m "pfx"} for {withNh} prefixes with next hops"]
+
+def specFibHash (got : String) : List SpecFail :=
+  let m := kvs got
+  let ts := parseTriples (kv m "real")
+  if ts.isEmpty then [] else
+  let real := ts.filterMap fun (a, _, _) => Name.ofText a
+  let live := ts.filterMap fun (a, b, c) => if b != "0" || c == "1" then Name.ofText a else none
+  let vts := parseTriples (kv m "virt")
+  let unknown := vts.any fun (a, _, _) => a == "?"
+  let virt := vts.filterMap fun (a, b, _) => do pure ((← Name.ofText a), (← b.toNat?))
+  let vnames := vts.filterMap fun (a, _, c) => if c == "!" then none else do
+    pure ((← Name.ofText a), (listOf "+" c).filterMap Name.ofText)
+  if !unknown && fibHashMinimal (kvNat m "m") real live virt vnames then [] else
+    let long := real.filter (fun n => decide (n.length ≥ kvNat m "m"))
+    let vs := long.map (fun n => n.take (kvNat m "m"))
+    let key := if !(sameSet real live) then "dead-real-entry"
+      else if unknown || !(subset (virt.map (·.1)) vs) then "dead-virtual-entry"
+      else if !(virt.all (fun p => p.2 == maxLen (long.filter (fun n => decide (n.take (kvNat m "m") = p.1))))) then "stale-md"
+      else "virtual-names"
+    [fail "fib-hash-minimal" key s!"the hash-table FIB holds more than its live entries require: {kv m "virt"} for real {kv m "real"}"]
+
+def specRib (got : String) : List SpecFail :=
+  let m := kvs got
+  let ps := (listOf "," (kv m "rib")).filterMap fun t => match t.splitOn "|" with
+    | [a, b] => some (a, b)
+    | _ => none
+  if ps.isEmpty then [] else
+  let nodes := ps.filterMap fun (a, _) => Name.ofText a
+  let live := ps.filterMap fun (a, b) => if b != "0" then Name.ofText a else none
+  if ribMinimal (nodes.filter (· ≠ [])) live then [] else
+    [fail "rib-minimal" "dead-node" s!"the RIB holds nodes on no path to a route: {namesSorted (nodes.filter (fun n => n ≠ [] && !(C07.memb n (closure live))))}"]
+
+def crashSpec (got what : String) : List SpecFail :=
+  if isCrash got then [fail "no-panic" what s!"{what} crashed: {got}"] else []
+
+def stepC08 (s : DSt) (op : String) (got : String) : StepResult DSt :=
+  match op.splitOn " " with
+  | "new" :: "pit" :: c :: d :: st :: nh :: rest =>
+    let cap := ((c.splitOn "=").getD 1 "").toNat?.getD 0
+    let dl := msNs (((d.splitOn "=").getD 1 "").toNat?.getD 0)
+    let strat := if (st.splitOn "=").getD 1 "" == "multi" then Strat.multi else Strat.best
+    let cfg : Cfg := { nexthops := parseNh ((nh.splitOn "=").getD 1 ""), strat := strat, dnlLife := dl }
+    { st := { mode := .pit, m := init cfg cap, dnlLife := dl, nodiff := rest == ["nodiff"] }, expected := some "ok", spec := crashSpec got "thread" }
+  | ["new", "fibtree"] => { st := { mode := .fibtree }, expected := some "ok" }
+  | ["new", "fibhash", m] => { st := { mode := .fibhash, fh := { m := m.toNat?.getD 1 } }, expected := some "ok" }
+  | ["new", "rib", kind, m] =>
+    { st := { mode := .rib, fh := { m := m.toNat?.getD 1 }, ft := if kind == "tree" then {} else { nodes := [[]] } }, expected := some "ok" }
+  | ["I", f, n, c, mb, nonce, life] =>
+    if s.mode != .pit then bad s else
+    match f.toNat?, Name.ofText n, nonce.toNat? with
+    | some f, some n, some nonce =>
+      let life := msNs (if life == "-" then 4000 else life.toNat?.getD 4000)
+      let i : Interest := ⟨f, n, c == "1", mb == "1", nonce, life⟩
+      let r := procInterest (ordFor got) s.m i
+      let hit := r.2.any (fun x => match x with | .data _ _ => true | _ => false)
+      let isNew := r.1.tokNext > s.m.tokNext
+      let cov := (if C08.dnlHas s.m.dnl n nonce then ["I-dnl-drop"] else
+                  if hit then ["I-cs-hit"] else
+                  if r.2.isEmpty then (if isNew then ["I-new-nosend"] else ["I-agg-or-drop"]) else
+                  if isNew then ["I-new-fwd"] else ["I-retx-fwd"])
+      -- spec side: the entry (of the implementation's dump) this Interest belongs to
+      let hz' := match parseDump got with
+        | some d => match d.pit.find? (fun e => decide (e.name = n) && e.cbp == i.cbp && e.mbf == i.mbf) with
+          | some e => (e.tok, max (hzOf s.hz e.tok) (d.now + life)) :: s.hz.filter (·.1 != e.tok)
+          | none => s.hz
+        | none => s.hz
+      pitStep s r got false cov { s with horizon := max s.horizon (s.now + life), hz := hz', interesting := s.interesting || hit }
+    | _, _, _ => bad s
+  | ["D", f, n, fresh, tok, w] =>
+    if s.mode != .pit then bad s else
+    match f.toNat?, Name.ofText n, bytesOfHex w with
+    | some f, some n, some w =>
+      let tk : Option (Option (Option Nat)) :=
+        if tok == "-" then some none else if tok == "X" then some (some none)
+        else if tok.startsWith "T" then (tok.drop 1).toString.toNat?.map (fun k => some (some k)) else none
+      match tk with
+      | none => bad s
+      | some tk =>
+        match tk with
+        | some (some k) => if k ≥ s.m.tokNext then { st := s, expected := some "skip" } else
+          let d : DataPkt := ⟨f, n, msNs (if fresh == "-" then 0 else fresh.toNat?.getD 0), tk, w⟩
+          let r := procData s.m d
+          pitStep s r got false [if r.2.isEmpty then "D-tok-nomatch" else "D-tok-match"] { s with horizon := max s.horizon s.now }
+        | _ =>
+          let d : DataPkt := ⟨f, n, msNs (if fresh == "-" then 0 else fresh.toNat?.getD 0), tk, w⟩
+          let r := procData s.m d
+          let nm := (prefixMatch s.m.pit n).length
+          let ev := r.1.cs.cs.length < s.m.cs.cs.length + 1 && !(s.m.cs.cs.has n)
+          pitStep s r got false ([if tk.isSome then "D-foreign-token" else if nm == 0 then "D-unsolicited" else if nm == 1 then "D-match-one" else "D-match-many"] ++ (if ev then ["D-evict"] else []))
+            { s with horizon := max s.horizon s.now, interesting := s.interesting || ev }
+    | _, _, _ => bad s
+  | [a, ms] =>
+    if a == "adv" || a == "quiesce" then
+      if s.mode != .pit then bad s else
+      match ms.toNat? with
+      | some ms =>
+        let target := s.now + msNs ms
+        -- simultaneous PIT-update / DNL-tick: Go's select may take either first; follow the implementation
+        let mA := advanceTo (fun _ => false) 200000 s.m target
+        let mB := advanceTo (fun _ => true) 200000 s.m target
+        let m' := if renderDump mA [] == got || s.nodiff then mA else if renderDump mB [] == got then mB else mA
+        let exhausted := m'.now != target
+        let expired := m'.nPit < s.m.nPit
+        -- quiescent: every lifetime recorded so far, one update period, the dead-nonce lifetime and its tick have elapsed
+        let quiescent := a == "quiesce" && decide (target > s.horizon + period + s.dnlLife + 2 * period)
+        let r := pitStep s (m', []) got quiescent
+          ((if expired then ["adv-expire"] else []) ++ (if m'.dnl.length < s.m.dnl.length then ["adv-dnl-reap"] else []) ++
+           (if quiescent then ["quiescent"] else []) ++ (if renderDump mA [] != renderDump mB [] then ["adv-timer-tie"] else []) ++ (if exhausted then ["FUEL-EXHAUSTED"] else []))
+          { s with now := target, interesting := s.interesting || expired }
+        if exhausted then { r with expected := some "model-fuel-exhausted" } else r
+      | none => bad s
+    else if a == "cap" then
+      if s.mode != .pit then bad s else
+      match ms.toNat? with
+      | some k => pitStep s (setCap s.m k, []) got false ["cap"] s
+      | none => bad s
+    else if a == "fclr" || a == "fset" || a == "funs" then
+      match Name.ofText ms with
+      | some n =>
+        if s.mode == .fibtree then
+          let f' := if a == "fclr" then s.ft.clr n else if a == "fset" then s.ft.set n else s.ft.uns n
+          { st := { s with ft := f' }, expected := some (fibTreeText f'), spec := crashSpec got "fib" ++ specFibTree got,
+            cov := ["tree-" ++ a] ++ (if f'.nodes.length < s.ft.nodes.length then ["tree-prune"] else []),
+            nontrivial := f'.nodes.length < s.ft.nodes.length }
+        else if s.mode == .fibhash then
+          let f' := if a == "fclr" then s.fh.clr n else if a == "fset" then s.fh.set n else s.fh.uns n
+          { st := { s with fh := f' }, expected := some (fibHashText f'), spec := crashSpec got "fib" ++ specFibHash got,
+            cov := ["hash-" ++ a] ++ (if f'.virt.length < s.fh.virt.length then ["hash-virt-prune"] else []),
+            nontrivial := f'.real.length < s.fh.real.length }
+        else bad s
+      | none => bad s
+    else if a == "rface" then
+      if s.mode != .rib then bad s else
+      match ms.toNat? with
+      | some face =>
+        let r' := s.rb.cleanUp face
+        let ribPart := (got.splitOn " ;; ").headD ""
+        let fibPart := " ;; ".intercalate ((got.splitOn " ;; ").drop 1)
+        { st := { s with rb := r' }, expected := some (ribText r' ++ " ;; " ++ fibPart),
+          spec := crashSpec got "rib" ++ specRib ribPart ++ (if fibPart.startsWith "m=" then specFibHash fibPart else specFibTree fibPart),
+          cov := ["rib-cleanup"] ++ (if r'.nodes.length < s.rb.nodes.length then ["rib-prune"] else []),
+          nontrivial := r'.nodes.length < s.rb.nodes.length }
+      | none => bad s
+    else bad s
+  | ["fins", n, f, _] =>
+    match Name.ofText n, f.toNat? with
+    | some n, some f =>
+      if s.mode == .fibtree then
+        let f' := s.ft.ins n f
+        { st := { s with ft := f' }, expected := some (fibTreeText f'), spec := crashSpec got "fib" ++ specFibTree got, cov := ["tree-fins"] }
+      else if s.mode == .fibhash then
+        let f' := s.fh.ins n f
+        { st := { s with fh := f' }, expected := some (fibHashText f'), spec := crashSpec got "fib" ++ specFibHash got, cov := ["hash-fins"] }
+      else bad s
+    | _, _ => bad s
+  | ["frem", n, f] =>
+    match Name.ofText n, f.toNat? with
+    | some n, some f =>
+      if s.mode == .fibtree then
+        let f' := s.ft.rem n f
+        { st := { s with ft := f' }, expected := some (fibTreeText f'), spec := crashSpec got "fib" ++ specFibTree got,
+          cov := ["tree-frem"] ++ (if f'.nodes.length + 1 < s.ft.nodes.length then ["tree-prune-chain"] else if f'.nodes.length < s.ft.nodes.length then ["tree-prune"] else []),
+          nontrivial := f'.nodes.length < s.ft.nodes.length }
+      else if s.mode == .fibhash then
+        let f' := s.fh.rem n f
+        { st := { s with fh := f' }, expected := some (fibHashText f'), spec := crashSpec got "fib" ++ specFibHash got,
+          cov := ["hash-frem"] ++ (if f'.virt.length < s.fh.virt.length then ["hash-virt-prune"] else []),
+          nontrivial := f'.real.length < s.fh.real.length }
+      else bad s
+    | _, _ => bad s
+  | ["radd", n, f, o, _, _] =>
+    if s.mode != .rib then bad s else
+    match Name.ofText n, f.toNat?, o.toNat? with
+    | some n, some f, some o =>
+      let r' := s.rb.add n f o
+      let ribPart := (got.splitOn " ;; ").headD ""
+      let fibPart := " ;; ".intercalate ((got.splitOn " ;; ").drop 1)
+      { st := { s with rb := r' }, expected := some (ribText r' ++ " ;; " ++ fibPart),
+        spec := crashSpec got "rib" ++ specRib ribPart ++ (if fibPart.startsWith "m=" then specFibHash fibPart else specFibTree fibPart),
+        cov := ["rib-add"] }
+    | _, _, _ => bad s
+  | ["rrem", n, f, o] =>
+    if s.mode != .rib then bad s else
+    match Name.ofText n, f.toNat?, o.toNat? with
+    | some n, some f, some o =>
+      let r' := s.rb.remove n f o
+      let ribPart := (got.splitOn " ;; ").headD ""
+      let fibPart := " ;; ".intercalate ((got.splitOn " ;; ").drop 1)
+      { st := { s with rb := r' }, expected := some (ribText r' ++ " ;; " ++ fibPart),
+        spec := crashSpec got "rib" ++ specRib ribPart ++ (if fibPart.startsWith "m=" then specFibHash fibPart else specFibTree fibPart),
+        cov := ["rib-remove"] ++ (if r'.nodes.length < s.rb.nodes.length then ["rib-prune"] else []),
+        nontrivial := r'.nodes.length < s.rb.nodes.length }
+    | _, _, _ => bad s
+  | _ => bad s
+
+def main : IO Unit := Ndn.Driver.run ({} : DSt) stepC08
